@@ -11,4 +11,6 @@ import SecsModel.Props.C04
 #print axioms SecsModel.Props.C04.prefix_monotone_chunks
 #print axioms SecsModel.Props.C04.segmentation_independent
 #print axioms SecsModel.Props.C04.on_data_no_lost_wakeup
-#print axioms SecsModel.Props.C04.swapped_order_loses_wakeup
+#print axioms SecsModel.Props.C04.dispatch_no_lost_wakeup
+#print axioms SecsModel.Props.C04.reordered_handover_loses_wakeup
+#print axioms SecsModel.Props.C04.byte_queue_locked
